@@ -10,7 +10,7 @@ def observe(case):
     for s in tr.steps:
         if 'ts' in s:
             ts = s['ts']
-    trials = [(key, k, tr.lens[key], tr.delays[key][0]) for (key, k, dur, _) in tr.added]
+    trials = [(key, k, tr.lens[key], tr.delays[key][0]) for (key, k, dur, *_) in tr.added]
     return ts, trials, tr
 
 
